@@ -23,7 +23,9 @@ end); everything the operations did in between reaches the model as the INPUT
 `x : XRes` of `finish` (status, result op numbers, an id `b` standing for the
 reply bytes).  The theorems therefore hold for every executor, atomic or not.
 `legacy = true` is the code before commit 90324f7 (the waiter channel of a
-duplicate was not appended to `currentSequenceWaiters`).
+duplicate was not appended to `currentSequenceWaiters`); `legacyJoin = true` is
+the code before commit 5fcf292 (a request that joined an in-flight compound
+was handed its result without `hasSameShapeAs`).
 
 Sequence ids are `uint32`: `lastSequenceID + 1` wraps, modelled as `% M`.
 -/
@@ -103,7 +105,7 @@ def shapeOK (cached : CRes) (ops : List Nat) : Bool :=
 structure Busy where
   call    : Nat
   req     : Req
-  waiters : List Nat
+  waiters : List (Nat × List Nat)   -- parked calls (channel) with their own `argArray` op numbers
 deriving DecidableEq, Repr, Inhabited
 
 /-- `slotState` (+ ghost counters used only by the theorems). -/
@@ -138,6 +140,7 @@ structure State where
   maxOps    : Nat := 12
   nslots    : Nat := 3
   legacy    : Bool := false
+  legacyJoin : Bool := false
   nsess     : Nat := 0
   sess      : Nat → Option Session := fun _ => none
   ninc      : Nat := 0
@@ -146,8 +149,8 @@ structure State where
   execs     : List (Nat × Req) := []                 -- ghost: executions started, in order
   parked    : List (Nat × Nat × Nat) := []           -- ghost: calls blocked in `<-ch` (call, session, slot)
 
-def init (maxOps nslots : Nat) (legacy : Bool) : State :=
-  { maxOps := maxOps, nslots := nslots, legacy := legacy }
+def init (maxOps nslots : Nat) (legacy : Bool) (legacyJoin : Bool := false) : State :=
+  { maxOps := maxOps, nslots := nslots, legacy := legacy, legacyJoin := legacyJoin }
 
 def setSlot (s : State) (sid slot : Nat) (sl : Slot) : State :=
   { s with sess := fun k =>
@@ -177,17 +180,22 @@ def arrive (s : State) (call : Nat) (r : Req) : State × ArriveOut :=
       else if r.seq = (sl.lastSeq + 1) % M then
         match sl.busy with
         | some b =>
-          let b' := if s.legacy then b else { b with waiters := b.waiters ++ [call] }
+          let b' := if s.legacy then b else { b with waiters := b.waiters ++ [(call, r.ops)] }
           ({ setSlot s r.sess r.slot { sl with busy := some b' } with
               parked := s.parked ++ [(call, r.sess, r.slot)] }, .parked)
         | none =>
-          let sl1 := { sl with lastResult := seqErr errSeqMisordered }
+          let sl1 := { sl with lastResult := seqErr errSeqMisordered, lastDone := none }
           if 1 + r.ops.length > s.maxOps then
             (setSlot s r.sess r.slot sl1, .reply (seqErr errTooManyOps))
           else
             ({ setSlot s r.sess r.slot { sl1 with busy := some ⟨call, r, []⟩, nExec := sl.nExec + 1 } with
                 execs := s.execs ++ [(call, r)] }, .started)
       else (s, .reply (seqErr errSeqMisordered))
+
+/-- What a parked call returns once it has received `result` from its channel:
+`hasSameShapeAs(argArray)` or `SEQ_FALSE_RETRY` (commit 5fcf292). -/
+def waiterReply (legacyJoin : Bool) (x : XRes) (ops : List Nat) : CRes :=
+  if legacyJoin || shapeOK (fullRes x) ops then fullRes x else seqErr errSeqFalseRetry
 
 /-- End of the compound of the call executing on (sid, slot): store the
 (possibly reduced) result, free the slot, hand the FULL result to the original
@@ -201,8 +209,8 @@ def finish (s : State) (sid slot : Nat) (x : XRes) : State × List (Nat × CRes)
     | some b =>
       let sl' := { sl with lastSeq := b.req.seq, lastResult := cachedRes b.req.cache x, busy := none,
                            lastDone := some (b.req, x) }
-      ({ setSlot s sid slot sl' with parked := s.parked.filter (fun p => !(b.waiters.contains p.1)) },
-       (b.call, fullRes x) :: b.waiters.map (fun w => (w, fullRes x)))
+      ({ setSlot s sid slot sl' with parked := s.parked.filter (fun p => !((b.waiters.map (·.1)).contains p.1)) },
+       (b.call, fullRes x) :: b.waiters.map (fun w => (w.1, waiterReply s.legacyJoin x w.2)))
 
 /-- `holdCount` of an incarnation = SEQUENCE compounds in flight on its sessions
 (also on sessions that were destroyed meanwhile). -/
@@ -227,27 +235,27 @@ def removeInc (s : State) (k : Nat) : State :=
     inc := fun i => if i = k then { s.inc i with alive := false } else s.inc i
     confirmed := fun c => if s.confirmed c = some k then none else s.confirmed c }
 
+/-- Allocation of a new session for incarnation `k` of `client` (second half of
+`opCreateSession`). -/
+def newSession (s0 : State) (k client seq : Nat) : State × CsOut :=
+  ({ s0 with
+      nsess := s0.nsess + 1
+      sess := fun i => if i = s0.nsess then some ⟨k, true, s0.nslots, fun _ => {}⟩ else s0.sess i
+      inc := fun i => if i = k then { s0.inc i with csLast := seq, csResp := some s0.nsess } else s0.inc i
+      confirmed := fun c => if c = client then some k else s0.confirmed c }, .created s0.nsess)
+
 /-- `opCreateSession`. -/
 def createSession (s : State) (k : Nat) (seq : Nat) : State × CsOut :=
   if k ≥ s.ninc || !(s.inc k).alive then (s, .stale)
-  else
-    let ci := s.inc k
-    if seq = ci.csLast then (s, .cached ci.csResp)
-    else if seq = (ci.csLast + 1) % M then
-      let step (s0 : State) : State × CsOut :=
-        let sid := s0.nsess
-        ({ s0 with
-            nsess := sid + 1
-            sess := fun i => if i = sid then some ⟨k, true, s0.nslots, fun _ => {}⟩ else s0.sess i
-            inc := fun i => if i = k then { s0.inc i with csLast := seq, csResp := some sid } else s0.inc i
-            confirmed := fun c => if c = ci.client then some k else s0.confirmed c }, .created sid)
-      match s.confirmed ci.client with
-      | some old =>
-        if old = k then step s
-        else if holdCount s old > 0 then (s, .delay)
-        else step (removeInc s old)
-      | none => step s
-    else (s, .misordered)
+  else if seq = (s.inc k).csLast then (s, .cached (s.inc k).csResp)
+  else if seq = ((s.inc k).csLast + 1) % M then
+    match s.confirmed (s.inc k).client with
+    | some old =>
+      if old = k then newSession s k (s.inc k).client seq
+      else if holdCount s old > 0 then (s, .delay)
+      else newSession (removeInc s old) k (s.inc k).client seq
+    | none => newSession s k (s.inc k).client seq
+  else (s, .misordered)
 
 /-- First alive incarnation of (client, verifier). -/
 def findInc (s : State) (client ver : Nat) : Option Nat :=
